@@ -19,6 +19,7 @@ package main
 
 import (
 	"bytes"
+	"crypto/cipher"
 	"fmt"
 	"math/big"
 	"os"
@@ -33,9 +34,12 @@ import (
 
 	"go.dedis.ch/kyber/v4"
 	"go.dedis.ch/kyber/v4/pairing"
+	"go.dedis.ch/kyber/v4/pairing/bls12381/kilic"
+	"go.dedis.ch/kyber/v4/pairing/bn254"
 	"go.dedis.ch/kyber/v4/share"
 	"go.dedis.ch/kyber/v4/sign/bdn"
 	"go.dedis.ch/kyber/v4/sign/bls"
+	"go.dedis.ch/kyber/v4/sign/eddsa"
 	"go.dedis.ch/kyber/v4/sign/schnorr"
 	"kyverif/hg"
 	"kyverif/vh"
@@ -115,13 +119,16 @@ func (s *snapper) walk(v reflect.Value, path string, depth int) {
 			s.lines = append(s.lines, path+"=nilslice")
 			return
 		}
-		s.lines = append(s.lines, fmt.Sprintf("%s=slice:%x/%d", path, v.Pointer(), v.Len()))
-		if v.Len() == 0 {
-			return
-		}
+		s.lines = append(s.lines, fmt.Sprintf("%s=slice:%x/%d/%d", path, v.Pointer(), v.Len(), v.Cap()))
 		et := t.Elem()
 		if flat(et) {
-			s.lines = append(s.lines, path+"[]="+vh.Hex(rawBytes(unsafe.Pointer(v.Pointer()), et.Size()*uintptr(v.Len()))))
+			// the whole backing array b[:cap(b)]: an append by a reader writes past len
+			if v.Cap() > 0 {
+				s.lines = append(s.lines, path+"[:cap]="+vh.Hex(rawBytes(unsafe.Pointer(v.Pointer()), et.Size()*uintptr(v.Cap()))))
+			}
+			return
+		}
+		if v.Len() == 0 {
 			return
 		}
 		if s.seen[v.Pointer()] {
@@ -198,6 +205,7 @@ var rname = []string{"MarshalBinary", "String", "Equal", "Clone", "Data", "Marsh
 	"Scalar.MarshalBinary", "Scalar.String", "Scalar.Equal", "Scalar.Clone"}
 
 type ctx struct {
+	seen  map[string]bool
 	rep   *vh.Report
 	items []string
 	id    int
@@ -241,7 +249,17 @@ func boolList(b []bool) string {
 	return vh.CoqList(s)
 }
 
+// emit / emitObj: the model's verdict depends only on (kind, implementation, method, changed), so
+// identical tuples are emitted once (the index keeps the first call that produced them)
 func (c *ctx) emit(kind string, a, b int, changed []bool, desc string) {
+	k := fmt.Sprintf("%s %d %d %s", kind, a, b, boolList(changed))
+	if c.seen == nil {
+		c.seen = map[string]bool{}
+	}
+	if c.seen[k] {
+		return
+	}
+	c.seen[k] = true
 	c.id++
 	c.items = append(c.items, fmt.Sprintf("(%s %d %d %d %s)", kind, c.id, a, b, boolList(changed)))
 	c.rep.Index(c.id, desc)
@@ -318,6 +336,313 @@ func groupChecks(c *ctx, im *hg.Impl, rng *vh.Rng, draws int) {
 	}
 }
 
+// ---------------------------------------------------------------- internal forms
+
+type pform struct {
+	name string
+	mk   func() kyber.Point
+}
+type sform struct {
+	name string
+	mk   func() kyber.Scalar
+}
+
+func mustBig(s string) *big.Int { v, _ := new(big.Int).SetString(s, 10); return v }
+
+// field primes of the supported curves (to build encodings with unreduced coordinates)
+var fieldPrimes = []*big.Int{
+	new(big.Int).Sub(new(big.Int).Lsh(big.NewInt(1), 255), big.NewInt(19)),
+	mustBig("115792089210356248762697446949407573530086143415290314195533631308867097853951"),
+	mustBig("65000549695646603732796438742359905742825358107623003571877145026864184071783"),
+	mustBig("21888242871839275222246405745257275088696311157297823662689037894645226208583"),
+	mustBig("4002409555221667393417789825735904156556882819939007885332058136124031650490837864442687629129015664037894272559787"),
+}
+
+func revb(b []byte) []byte {
+	o := make([]byte, len(b))
+	for i := range b {
+		o[len(b)-1-i] = b[i]
+	}
+	return o
+}
+
+// altEncodings: encodings that differ from the canonical one but may be accepted by
+// UnmarshalBinary (unreduced coordinates, stray flag bits)
+func altEncodings(enc []byte) [][]byte {
+	var out [][]byte
+	n := len(enc)
+	add := func(b []byte) {
+		if !bytes.Equal(b, enc) {
+			out = append(out, b)
+		}
+	}
+	var chunks [][2]int
+	for _, parts := range []int{1, 2, 4, 12} {
+		if n%parts == 0 {
+			for i := 0; i < parts; i++ {
+				chunks = append(chunks, [2]int{i * n / parts, (i + 1) * n / parts})
+			}
+		}
+		if (n-1)%parts == 0 && n > 1 { // one leading format byte
+			for i := 0; i < parts; i++ {
+				chunks = append(chunks, [2]int{1 + i*(n-1)/parts, 1 + (i+1)*(n-1)/parts})
+			}
+		}
+	}
+	for _, ch := range chunks {
+		l := ch[1] - ch[0]
+		for _, le := range []bool{false, true} {
+			raw := append([]byte(nil), enc[ch[0]:ch[1]]...)
+			mask := byte(0)
+			if le { // compressed Edwards form: sign bit in the top bit of the last byte
+				mask = raw[l-1] & 0x80
+				raw[l-1] &^= 0x80
+				raw = revb(raw)
+			}
+			x := new(big.Int).SetBytes(raw)
+			for _, P := range fieldPrimes {
+				y := new(big.Int).Add(x, P)
+				if y.BitLen() > 8*l || (le && y.BitLen() > 8*l-1) {
+					continue
+				}
+				yb := y.FillBytes(make([]byte, l))
+				if le {
+					yb = revb(yb)
+					yb[l-1] |= mask
+				}
+				b := append([]byte(nil), enc...)
+				copy(b[ch[0]:ch[1]], yb)
+				add(b)
+			}
+		}
+	}
+	for _, bit := range []byte{0x80, 0x40, 0x20} {
+		b := append([]byte(nil), enc...)
+		b[0] ^= bit
+		add(b)
+		b = append([]byte(nil), enc...)
+		b[n-1] ^= bit
+		add(b)
+	}
+	return out
+}
+
+func pointForms(im *hg.Impl, rng *vh.Rng) []pform {
+	G := im.G
+	sum := func() kyber.Point { return nonNormal(im, rng) }
+	fs := []pform{
+		{"sum", sum},
+		{"decoded", func() kyber.Point { return im.FreshPoint(hg.Enc(sum())) }},
+		{"identity:Sub(P,P)", func() kyber.Point { p := sum(); return G.Point().Sub(p, p) }},
+		{"identity:Mul(0,P)", func() kyber.Point { return G.Point().Mul(G.Scalar().Zero(), sum()) }},
+		{"identity:Null()", func() kyber.Point { return G.Point().Null() }},
+		{"identity:decoded", func() kyber.Point { return im.FreshPoint(hg.Enc(G.Point().Null())) }},
+		{"generator", func() kyber.Point { return im.Gen() }},
+		{"Neg(sum)", func() kyber.Point { return G.Point().Neg(sum()) }},
+		{"double", func() kyber.Point { p := sum(); return G.Point().Add(p, p) }},
+		{"Clone(sum)", func() kyber.Point { return sum().Clone() }},
+		{"Set(sum)", func() kyber.Point { return G.Point().Set(sum()) }},
+		{"Mul(s,sum)", func() kyber.Point { return G.Point().Mul(im.NewScalar(rng.BigBelow(im.Q)), sum()) }},
+	}
+	if im.HasMulBase {
+		fs = append(fs, pform{"Mul(s,nil)", func() kyber.Point { return G.Point().Mul(im.NewScalar(rng.BigBelow(im.Q)), nil) }})
+	}
+	if im.HasPick {
+		fs = append(fs, pform{"Pick", func() kyber.Point { return G.Point().Pick(vh.NewSeqStream(rng.Bytes(8))) }})
+	}
+	if im.HasEmbed {
+		fs = append(fs, pform{"Embed", func() kyber.Point { return G.Point().Embed([]byte("abc"), vh.NewSeqStream(rng.Bytes(8))) }})
+	}
+	// encodings UnmarshalBinary accepts although they are not what MarshalBinary produces
+	n := 0
+	for _, base := range []kyber.Point{G.Point().Null(), im.Gen(), sum()} {
+		enc := []byte(hg.Enc(base))
+		for _, alt := range altEncodings(enc) {
+			alt := alt
+			ok := false
+			vh.Try(func() { ok = G.Point().UnmarshalBinary(alt) == nil })
+			if !ok || n >= 8 {
+				continue
+			}
+			n++
+			fs = append(fs, pform{"noncanonical-encoding", func() kyber.Point {
+				p := G.Point()
+				_ = p.UnmarshalBinary(alt)
+				return p
+			}})
+		}
+	}
+	return fs
+}
+
+func scalarForms(im *hg.Impl, rng *vh.Rng) []sform {
+	G := im.G
+	rnd := func() kyber.Scalar { return im.NewScalar(rng.BigBelow(im.Q)) }
+	fs := []sform{
+		{"random", rnd},
+		{"Zero()", func() kyber.Scalar { return G.Scalar().Zero() }},
+		{"One()", func() kyber.Scalar { return G.Scalar().One() }},
+		{"SetInt64(-1)", func() kyber.Scalar { return G.Scalar().SetInt64(-1) }},
+		{"Neg(0)", func() kyber.Scalar { return G.Scalar().Neg(G.Scalar().Zero()) }},
+		{"Sub(a,a)", func() kyber.Scalar { a := rnd(); return G.Scalar().Sub(a, a) }},
+		{"Mul(a,b)", func() kyber.Scalar { return G.Scalar().Mul(rnd(), rnd()) }},
+		{"Pick", func() kyber.Scalar { return G.Scalar().Pick(vh.NewSeqStream(rng.Bytes(8))) }},
+		{"SetBytes(long)", func() kyber.Scalar { return G.Scalar().SetBytes(rng.Bytes(70)) }},
+		{"decoded", func() kyber.Scalar {
+			b, _ := rnd().MarshalBinary()
+			x := G.Scalar()
+			_ = x.UnmarshalBinary(b)
+			return x
+		}},
+	}
+	// unreduced encodings accepted by UnmarshalBinary
+	l := G.Scalar().MarshalSize()
+	le := G.Scalar().ByteOrder() == kyber.LittleEndian
+	var cands []*big.Int
+	for _, k := range []int64{0, 7} {
+		v := new(big.Int).Add(im.Q, big.NewInt(k))
+		cands = append(cands, v, new(big.Int).Add(v, im.Q))
+	}
+	cands = append(cands, new(big.Int).Sub(new(big.Int).Lsh(big.NewInt(1), uint(8*l)), big.NewInt(1)),
+		new(big.Int).Sub(new(big.Int).Lsh(big.NewInt(1), uint(8*l-1)), big.NewInt(1)))
+	for _, v := range cands {
+		if v.BitLen() > 8*l {
+			continue
+		}
+		b := v.FillBytes(make([]byte, l))
+		if le {
+			b = revb(b)
+		}
+		ok := false
+		vh.Try(func() { ok = G.Scalar().UnmarshalBinary(b) == nil })
+		if ok {
+			fs = append(fs, sform{"noncanonical-encoding", func() kyber.Scalar {
+				x := G.Scalar()
+				_ = x.UnmarshalBinary(b)
+				return x
+			}})
+		}
+	}
+	return fs
+}
+
+// formChecks: the read-only method set on a fresh instance of every internal form; the group object
+// itself is shared state as well
+func formChecks(c *ctx, im *hg.Impl, rng *vh.Rng) {
+	G := im.G
+	pre := im.Name + ":"
+	pfs, sfs := pointForms(im, rng), scalarForms(im, rng)
+	normalP, normalS := nonNormal(im, rng), im.NewScalar(rng.BigBelow(im.Q))
+	for _, f := range pfs {
+		f := f
+		ro := func(rm int, two bool, call func(p, q kyber.Point) string) {
+			p := f.mk()
+			q := normalP
+			if two && rng.Bool() {
+				q = f.mk()
+			}
+			shared := []interface{}{p}
+			if two {
+				shared = append(shared, q)
+			}
+			ch := c.observe(pre+rname[rm]+"{"+f.name+"}", append(shared, G), func() string { return call(p, q) })
+			c.emit("CRead", im.PImpl, rm, ch[:len(shared)], pre+rname[rm]+"{"+f.name+"}")
+			c.emitObj(6, ch[len(shared)], pre+rname[rm]+"{"+f.name+"} group object")
+		}
+		ro(rMarshal, false, func(p, _ kyber.Point) string { b, _ := p.MarshalBinary(); return string(b) })
+		ro(rString, false, func(p, _ kyber.Point) string { return p.String() })
+		ro(rEqual, true, func(p, q kyber.Point) string { return fmt.Sprint(p.Equal(q), q.Equal(p), p.Equal(p)) })
+		ro(rClone, false, func(p, _ kyber.Point) string { return hg.Enc(p.Clone()) })
+		ro(rMarshalTo, false, func(p, _ kyber.Point) string { var w bytes.Buffer; _, _ = p.MarshalTo(&w); return w.String() })
+		if im.HasEmbed {
+			ro(rData, false, func(p, _ kyber.Point) string { b, err := p.Data(); return string(b) + fmt.Sprint(err != nil) })
+		}
+		op := func(m int, name string, call func(p kyber.Point) string) {
+			p := f.mk()
+			ch := c.observe(pre+"operand-of-"+name+"{"+f.name+"}", []interface{}{p, normalP, normalS, G}, func() string { return call(p) })
+			c.emit("COperand", im.PImpl, m, []bool{false, ch[0], ch[1]}, pre+"operand-of-"+name+"{"+f.name+"}")
+			c.emitObj(6, ch[2] || ch[3], pre+"operand-of-"+name+"{"+f.name+"} scalar / group object")
+		}
+		op(0, "Add", func(p kyber.Point) string {
+			return hg.Enc(G.Point().Add(p, normalP)) + hg.Enc(G.Point().Add(normalP, p))
+		})
+		op(1, "Sub", func(p kyber.Point) string {
+			return hg.Enc(G.Point().Sub(p, normalP)) + hg.Enc(G.Point().Sub(normalP, p))
+		})
+		op(2, "Neg", func(p kyber.Point) string { return hg.Enc(G.Point().Neg(p)) })
+		op(7, "Set", func(p kyber.Point) string { return hg.Enc(G.Point().Set(p)) })
+		{
+			p := f.mk()
+			ch := c.observe(pre+"operand-of-Mul{"+f.name+"}", []interface{}{normalS, p, G}, func() string { return hg.Enc(G.Point().Mul(normalS, p)) })
+			c.emit("COperand", im.PImpl, 3, []bool{false, ch[0], ch[1]}, pre+"operand-of-Mul{"+f.name+"}")
+			c.emitObj(6, ch[2], pre+"operand-of-Mul group object")
+		}
+	}
+	for _, f := range sfs {
+		f := f
+		ro := func(rm int, two bool, call func(s, t kyber.Scalar) string) {
+			s := f.mk()
+			t := normalS
+			if two && rng.Bool() {
+				t = f.mk()
+			}
+			shared := []interface{}{s}
+			if two {
+				shared = append(shared, t)
+			}
+			ch := c.observe(pre+rname[rm]+"{"+f.name+"}", append(shared, G), func() string { return call(s, t) })
+			c.emit("CRead", im.SImpl, rm, ch[:len(shared)], pre+rname[rm]+"{"+f.name+"}")
+			c.emitObj(6, ch[len(shared)], pre+rname[rm]+" group object")
+		}
+		ro(rScalarMarshal, false, func(s, _ kyber.Scalar) string { b, _ := s.MarshalBinary(); return string(b) })
+		ro(rScalarString, false, func(s, _ kyber.Scalar) string { return s.String() })
+		ro(rScalarEqual, true, func(s, t kyber.Scalar) string { return fmt.Sprint(s.Equal(t), t.Equal(s), s.Equal(s)) })
+		ro(rScalarClone, false, func(s, _ kyber.Scalar) string { return hg.ScalarVal(s.Clone()).String() })
+		ro(rScalarMarshal, false, func(s, _ kyber.Scalar) string { var w bytes.Buffer; _, _ = s.MarshalTo(&w); return w.String() })
+		op := func(m int, name string, call func(s kyber.Scalar) string) {
+			s := f.mk()
+			ch := c.observe(pre+"operand-of-"+name+"{"+f.name+"}", []interface{}{s, normalS, G}, func() string { return call(s) })
+			c.emit("COperand", im.SImpl, m, []bool{false, ch[0], ch[1]}, pre+"operand-of-"+name+"{"+f.name+"}")
+			c.emitObj(6, ch[2], pre+"operand-of-"+name+" group object")
+		}
+		op(20, "Scalar.Add", func(s kyber.Scalar) string {
+			return hg.ScalarVal(G.Scalar().Add(s, normalS)).String() + hg.ScalarVal(G.Scalar().Add(normalS, s)).String()
+		})
+		op(21, "Scalar.Sub", func(s kyber.Scalar) string {
+			return hg.ScalarVal(G.Scalar().Sub(s, normalS)).String() + hg.ScalarVal(G.Scalar().Sub(normalS, s)).String()
+		})
+		op(22, "Scalar.Neg", func(s kyber.Scalar) string { return hg.ScalarVal(G.Scalar().Neg(s)).String() })
+		op(23, "Scalar.Mul", func(s kyber.Scalar) string {
+			return hg.ScalarVal(G.Scalar().Mul(s, normalS)).String() + hg.ScalarVal(G.Scalar().Mul(normalS, s)).String()
+		})
+		op(31, "Scalar.Set", func(s kyber.Scalar) string { return hg.ScalarVal(G.Scalar().Set(s)).String() })
+		if new(big.Int).GCD(nil, nil, new(big.Int).Mod(hg.ScalarVal(f.mk()), im.Q), im.Q).Cmp(big.NewInt(1)) == 0 && f.name != "random" && f.name != "Pick" && f.name != "Mul(a,b)" && f.name != "SetBytes(long)" && f.name != "decoded" {
+			op(25, "Scalar.Inv", func(s kyber.Scalar) string { return hg.ScalarVal(G.Scalar().Inv(s)).String() })
+			op(24, "Scalar.Div", func(s kyber.Scalar) string { return hg.ScalarVal(G.Scalar().Div(normalS, s)).String() })
+		}
+		{ // as the scalar operand of a point multiplication
+			s := f.mk()
+			ch := c.observe(pre+"operand-of-Mul{scalar "+f.name+"}", []interface{}{s, normalP, G}, func() string { return hg.Enc(G.Point().Mul(s, normalP)) })
+			c.emit("COperand", im.PImpl, 3, []bool{false, ch[0], ch[1]}, pre+"operand-of-Mul{scalar "+f.name+"}")
+			c.emitObj(6, ch[2], pre+"operand-of-Mul group object")
+		}
+	}
+}
+
+func (c *ctx) emitObj(kind int, changed bool, desc string) {
+	k := fmt.Sprintf("CObj %d %v", kind, changed)
+	if c.seen == nil {
+		c.seen = map[string]bool{}
+	}
+	if c.seen[k] {
+		return
+	}
+	c.seen[k] = true
+	c.id++
+	c.items = append(c.items, fmt.Sprintf("(CObj %d %d %s)", c.id, kind, vh.CoqBool(changed)))
+	c.rep.Index(c.id, desc)
+}
+
 func pairingChecks(c *ctx, name string, s pairing.Suite, g1, g2 *hg.Impl, rng *vh.Rng, draws int) {
 	for d := 0; d < draws; d++ {
 		p1, p2 := nonNormal(g1, rng), nonNormal(g2, rng)
@@ -380,6 +705,108 @@ func pairingChecks(c *ctx, name string, s pairing.Suite, g1, g2 *hg.Impl, rng *v
 			})
 		}
 	}
+}
+
+// suiteChecks: suites, their groups, scheme objects, key pairs and the caller's own tag slices are
+// shared state too.  Suites are configured the way the API allows (custom domain separation tags
+// of lengths that are not allocator size classes, given as slices with spare capacity) and every
+// call that goes through them is bracketed by deep snapshots (slices up to their capacity).
+func suiteChecks(c *ctx, rng *vh.Rng) {
+	type cfg struct {
+		name   string
+		s      pairing.Suite
+		extras []interface{}
+	}
+	tag := func(n int) []byte {
+		b := make([]byte, n, n+9+rng.Intn(8))
+		copy(b, rng.Bytes(n))
+		return b
+	}
+	var cfgs []cfg
+	for _, ln := range [][2]int{{20, 33}, {31, 5}, {47, 21}, {1, 100}} {
+		t1, t2 := tag(ln[0]), tag(ln[1])
+		b := bn254.NewSuite()
+		b.SetDomainG1(t1)
+		b.SetDomainG2(t2)
+		cfgs = append(cfgs, cfg{fmt.Sprintf("bn254{dst %d,%d}", ln[0], ln[1]), b, []interface{}{&t1, &t2}})
+		t3, t4 := tag(ln[0]), tag(ln[1])
+		cfgs = append(cfgs, cfg{fmt.Sprintf("bls12381.kilic{dst %d,%d}", ln[0], ln[1]), kilic.NewBLS12381SuiteWithDST(t3, t4), []interface{}{&t3, &t4}})
+		if ks, ok := kilic.NewBLS12381Suite().(*kilic.Suite); ok {
+			t5, t6 := tag(ln[0]), tag(ln[1])
+			ks.SetDomainG1(t5)
+			ks.SetDomainG2(t6)
+			cfgs = append(cfgs, cfg{fmt.Sprintf("bls12381.kilic{SetDomain %d,%d}", ln[0], ln[1]), ks, []interface{}{&t5, &t6}})
+		}
+	}
+	cfgs = append(cfgs, cfg{"bn254{default}", bn254.NewSuite(), nil})
+	for _, cf := range cfgs {
+		s := cf.s
+		g1, g2 := s.G1(), s.G2()
+		old1, old2 := g1.Point().Base(), g2.Point().Base()
+		shared := append([]interface{}{s, g1, g2, old1, old2}, cf.extras...)
+		msg := []byte("message to hash")
+		obj := func(what string, more []interface{}, f func() string) {
+			chs := c.observe(cf.name+":"+what, append(append([]interface{}{}, shared...), more...), f)
+			any := false
+			for _, x := range chs {
+				any = any || x
+			}
+			c.emitObj(7, any, cf.name+":"+what)
+		}
+		hashTo := func(g kyber.Group) string {
+			p := g.Point()
+			if h, ok := p.(kyber.HashablePoint); ok {
+				return hg.Enc(h.Hash(msg))
+			}
+			return ""
+		}
+		obj("hash-to-G1", nil, func() string { return hashTo(s.G1()) + hashTo(g1) })
+		obj("hash-to-G2", nil, func() string { return hashTo(s.G2()) + hashTo(g2) })
+		obj("Point/Scalar factories", nil, func() string {
+			return hg.Enc(s.G1().Point().Base()) + hg.Enc(g2.Point().Null()) + hg.ScalarVal(g1.Scalar().One()).String()
+		})
+		obj("Pick", nil, func() string {
+			return hg.Enc(g1.Point().Pick(vh.NewSeqStream([]byte("a")))) + hg.Enc(g2.Point().Pick(vh.NewSeqStream([]byte("b"))))
+		})
+		type scheme interface {
+			NewKeyPair(cipher.Stream) (kyber.Scalar, kyber.Point)
+			Sign(kyber.Scalar, []byte) ([]byte, error)
+			Verify(kyber.Point, []byte, []byte) error
+		}
+		names := []string{"bls.G1", "bls.G2", "bdn.G1", "bdn.G2"}
+		for i, sch := range []scheme{bls.NewSchemeOnG1(s), bls.NewSchemeOnG2(s), bdn.NewSchemeOnG1(s), bdn.NewSchemeOnG2(s)} {
+			which := names[i]
+			priv, pub := sch.NewKeyPair(vh.NewSeqStream(rng.Bytes(8)))
+			var sig []byte
+			obj(which+".Sign(shared key)", []interface{}{priv, pub, sch}, func() string {
+				var err error
+				sig, err = sch.Sign(priv, msg)
+				return string(sig) + fmt.Sprint(err)
+			})
+			obj(which+".Verify(shared key)", []interface{}{priv, pub, sch}, func() string {
+				return fmt.Sprint(sch.Verify(pub, msg, sig), sch.Verify(pub, []byte("other"), sig) != nil)
+			})
+		}
+		p1, p2 := g1.Point().Mul(g1.Scalar().SetInt64(5), nil), g2.Point().Mul(g2.Scalar().SetInt64(7), nil)
+		obj("Pair/ValidatePairing", []interface{}{p1, p2}, func() string {
+			return hg.Enc(s.Pair(p1, p2)) + fmt.Sprint(s.ValidatePairing(p1, p2, p1, p2))
+		})
+		obj("RandomStream/Hash/XOF", nil, func() string {
+			b := make([]byte, 8)
+			s.RandomStream().XORKeyStream(b, b)
+			h := s.Hash()
+			h.Write(msg)
+			return string(h.Sum(nil))
+		})
+	}
+	// EdDSA key object shared for signing and verification
+	e := eddsa.NewEdDSA(vh.NewSeqStream(rng.Bytes(8)))
+	msg := []byte("m")
+	var sig []byte
+	ch := c.observe("eddsa:Sign(shared key)", []interface{}{e}, func() string { sig, _ = e.Sign(msg); return string(sig) })
+	c.emitObj(8, ch[0], "eddsa:Sign")
+	ch = c.observe("eddsa:Verify(shared key)", []interface{}{e, e.Public}, func() string { return fmt.Sprint(eddsa.Verify(e.Public, msg, sig)) })
+	c.emitObj(8, ch[0] || ch[1], "eddsa:Verify")
 }
 
 func schemeChecks(c *ctx, im *hg.Impl, rng *vh.Rng) {
@@ -544,6 +971,7 @@ func main() {
 		byName[im.Name] = im
 		r := rng.Fork()
 		groupChecks(c, im, r, draws)
+		formChecks(c, im, r)
 		if !im.Slow || o.Thorough {
 			schemeChecks(c, im, r)
 		}
@@ -575,6 +1003,7 @@ func main() {
 		}
 		pairingChecks(c, nm, g1.Suite, g1, g2, rng.Fork(), pd)
 	}
+	suiteChecks(c, rng.Fork())
 	_ = big.NewInt
 	if o.Search {
 		raceSearch(o, rep)
